@@ -110,6 +110,47 @@ fn run_case<K: Kit>(ctx: &Ctx, b: &mut Batch, kit: &K, case: &Case) {
         l.tick_sample = TICK;
         l.tick_valid = TICK;
     }
+    // sealed worlds, now and then: the start list has a second entry - an *invalid* state in the
+    // sealing obstacle, marginally inside its face towards the goal. Nothing valid can start
+    // there, so the world stays infeasible whatever a planner makes of the extra entry.
+    let mut case_owned = case.clone();
+    if case.problem.infeasible.as_deref().is_some_and(|w| w.starts_with("Sealed")) && case.problem.extra_starts.is_empty() && (case.t_ticks + case.build_ticks) % 4 == 0 {
+        if let Ok(ev) = crate::monitor::WorldEval::<K>::new(kit, &case.problem.world) {
+            use oxmpl::base::space::StateSpace;
+            let (s, g) = (kit.unflat(&case.problem.start), kit.unflat(&case.problem.goal.centre));
+            let at = |t: f64| {
+                let mut o = s.clone();
+                ev.sp.interpolate(&s, &g, t, &mut o);
+                o
+            };
+            // from the goal backwards: the first invalid point, then bisect towards the goal
+            let mut hit = None;
+            for k in (0..=128).rev() {
+                let t = k as f64 / 128.0;
+                let q = at(t);
+                if !ev.valid(&q, &K::flat(&q)) {
+                    hit = Some(t);
+                    break;
+                }
+            }
+            if let Some(tb) = hit {
+                if tb < 1.0 {
+                    let (mut bad, mut good) = (tb, tb + 1.0 / 128.0);
+                    for _ in 0..30 {
+                        let mid = 0.5 * (bad + good);
+                        let q = at(mid);
+                        if ev.valid(&q, &K::flat(&q)) { good = mid } else { bad = mid }
+                    }
+                    let q = at(bad);
+                    if !ev.valid(&q, &K::flat(&q)) {
+                        case_owned.problem.extra_starts.push(K::flat(&q));
+                        b.count("sealed_worlds_with_an_invalid_extra_start", 1);
+                    }
+                }
+            }
+        }
+    }
+    let case = &case_owned;
     let Ok(mut inst) = d.install(&case.problem, SampleMode::PlannerRng) else { return };
     if case.warm_start && lvs > 0.0 {
         // first life: the same problem object in an empty environment
@@ -275,7 +316,7 @@ pub fn run(tier: Tier, seed: u64) -> i32 {
     for p in ALL_PLANNERS {
         ctx.require(&format!("solves[{}]", p.name()));
     }
-    for k in ["warm_started_cases", "infeasible_worlds", "result[timeout]", "result[path]", "solves_with_zero_timeout", "prm_builds", "iterations_observed"] {
+    for k in ["warm_started_cases", "sealed_worlds_with_an_invalid_extra_start", "infeasible_worlds", "result[timeout]", "result[path]", "solves_with_zero_timeout", "prm_builds", "iterations_observed"] {
         ctx.require(k);
     }
     ctx.finish(
